@@ -144,8 +144,17 @@ def lean_build(targets=None):
         return r.returncode == 0, log, time.time() - t0
 
 
-def model_bin():
-    return os.path.join(LEAN, ".lake", "build", "bin", "ygm_model")
+# driver executables: one per model group, so that a check does not depend on unrelated models
+MODE_GROUP = {"part": "core", "barrier": "core", "deliver": "core", "atomic": "core", "bytes": "core", "flush": "core"}
+
+
+def model_exe_name(mode):
+    g = MODE_GROUP.get(mode)
+    return "ygm_model_" + g if g else "ygm_model"
+
+
+def model_bin(mode=None):
+    return os.path.join(LEAN, ".lake", "build", "bin", model_exe_name(mode) if mode else "ygm_model")
 
 
 def obligations_for(pid):
@@ -190,7 +199,8 @@ def lean_obligations(pid, tier):
     """Step 1 of every check: build, source audit, axiom audit of the property's theorems."""
     obl = obligations_for(pid)
     theorems, module = obl["theorems"], obl["module"]
-    ok, log, wall = lean_build([module, "ygm_model"])
+    exes = sorted({model_exe_name(m) for m in obl.get("modes", [])}) or ["ygm_model"]
+    ok, log, wall = lean_build([module] + exes)
     info = {"build_ok": ok, "build_wall_s": round(wall, 1), "theorems": theorems,
             "discharged": [], "failed": [], "source_audit": [], "leanchecker": None}
     if not ok:
@@ -220,7 +230,7 @@ def lean_obligations(pid, tier):
 def model(mode, lines, timeout=600):
     """run the Lean driver on the given input lines; returns list of output lines"""
     inp = "\n".join(lines) + "\n"
-    r = subprocess.run([model_bin(), mode], input=inp, capture_output=True, text=True, timeout=timeout)
+    r = subprocess.run([model_bin(mode), mode], input=inp, capture_output=True, text=True, timeout=timeout)
     if r.returncode != 0:
         raise RuntimeError(f"ygm_model {mode} failed: {r.stderr[:500]}")
     out = r.stdout.split("\n")
@@ -290,13 +300,14 @@ def build_harness(name, flags=(), sanitize=False, hooks=True):
     out = os.path.join(d, f"{name}-{key}")
     with Lock("harness-" + name):
         if not os.path.exists(out):
-            # drop stale binaries of this harness
-            for f in os.listdir(d):
-                if f.startswith(name + "-") and not f.endswith(".tmp"):
-                    try:
-                        os.unlink(os.path.join(d, f))
-                    except OSError:
-                        pass
+            # garbage-collect old variants of this harness (several flag variants may be live at once)
+            olds = sorted([f for f in os.listdir(d) if f.startswith(name + "-") and not f.endswith(".tmp")],
+                          key=lambda f: os.path.getmtime(os.path.join(d, f)))
+            for f in olds[:-8]:
+                try:
+                    os.unlink(os.path.join(d, f))
+                except OSError:
+                    pass
             if sanitize:
                 r = sh(["g++"] + fl + [src, os.path.join(SIMMPI, "simmpi.cpp"), "-o", out + ".tmp", "-lpthread"])
             else:
@@ -455,7 +466,7 @@ def finish(pid, tier, res, ob, t0):
         violations.append(f"VIOLATION property={pid} replay={path}")
         if len(violations) >= 5:
             break
-    if not violations and not res.oracle_failures:
+    if not violations:
         # proof obligations or correspondence broken, property itself not seen to fail
         broken = []
         for f in ob["failed"]:
